@@ -42,9 +42,13 @@ Docs == Atoms \cup Lvl1 \cup Spaced
 Del(d, p) == SubSeq(d, 1, p - 1) \o SubSeq(d, p + 1, Len(d))
 Ins(d, p, c) == SubSeq(d, 1, p - 1) \o <<c>> \o SubSeq(d, p, Len(d))
 Repl(d, p, c) == [d EXCEPT ![p] = c]
+\* the edits draw from a wider alphabet than the short strings: EVERY control character (so that a grammar that
+\* widens its whitespace or narrows its control range by one character is seen), DEL, C1 controls, NBSP, the line
+\* and paragraph separators, BOM, a 4-byte character and the last scalar value
+ESigma == Sigma \cup (0..31) \cup {127, 128, 133, 160, 8232, 8233, 65279, 65533, 128512, 1114111, 98, 102, 110, 114, 70, 57, 120}
 Edits(d) == { Del(d, p) : p \in 1..Len(d) }
-            \cup { Ins(d, p, c) : p \in 1..(Len(d) + 1), c \in Sigma }
-            \cup { Repl(d, p, c) : p \in 1..Len(d), c \in Sigma }
+            \cup { Ins(d, p, c) : p \in 1..(Len(d) + 1), c \in ESigma }
+            \cup { Repl(d, p, c) : p \in 1..Len(d), c \in ESigma }
 
 RECURSIVE H(_)
 H(t) == IF t = <<>> THEN 7 ELSE (31 * H(Tail(t)) + t[1]) % 1009
